@@ -140,7 +140,7 @@ def shrink(f):
     def still(cand):
         fs = check_block(cand, random.Random(1), runner.Stats(), "shrink", n_states=24)
         for x in fs:
-            if x.kind == f.kind:
+            if x.bucket == f.bucket:
                 return x
         return None
     best = shrink_block(instrs, still, budget_s=15)
